@@ -291,6 +291,21 @@ fn lex_and_parse_number<N: FromLexicalWithOptions, const FORMAT: u128>(
         input: LexInput,
         options: &'static N::Options,
     ) -> lexical::Result<(N, usize)> {
+        // There appears to be a bug in lexical where `._1` is accepted even though
+        // `fraction_leading_digit_separator` is `false` (and, with debug assertions enabled, a
+        // long enough mantissa after `._` makes it panic).  As a workaround, a number is never
+        // allowed to extend past a `.` that is directly followed by a digit separator.
+        let integer_len = input
+            .as_bytes()
+            .iter()
+            .take_while(|&&b| b.is_ascii_digit() || b == b'_')
+            .count();
+        let input = if input.as_bytes()[integer_len..].starts_with(b"._") {
+            input.slice(..integer_len + 1)
+        } else {
+            input
+        };
+
         let result @ (_, len) =
             lexical::parse_partial_with_options::<N, _, FORMAT>(input, options)?;
 
@@ -304,15 +319,6 @@ fn lex_and_parse_number<N: FromLexicalWithOptions, const FORMAT: u128>(
         } && input.as_bytes()[..len].iter().skip(2).all(|&b| b == b'_')
         {
             return Err(lexical::Error::EmptyInteger(2));
-        }
-
-        // There appears to be a bug in lexical where `._1` is accepted even though
-        // `fraction_leading_digit_separator` is `false`.  This check is a workaround for that.
-        if let Some(dot) = input.slice(..len).find("._") {
-            let include_dot = dot + 1;
-            let number =
-                lexical::parse_with_options::<N, _, FORMAT>(input.slice(..include_dot), options)?;
-            return Ok((number, include_dot));
         }
 
         Ok(result)
